@@ -163,6 +163,9 @@ def run_factories(ctx):
                 for rep in range(ctx.reps(2, 6)):
                     x = rel(sp, rng) * (1.0 if rep % 2 == 0 else 1e-2)
                     aliased_check(ctx, comp, cfg, prox, x)
+                if stype == 'scalar' and sp.size <= 20:
+                    for wtag, W in arithmetic_wrappers(prox, sp, rng):
+                        aliased_check(ctx, 'wrapper:' + wtag, '%s;%s' % (comp, util.space_tag(sp)), W, rel(sp, rng))
                 if idx % 37 == 0:
                     ctx.sample({'factory': name, 'space': util.srepr(sp, 50), 'sigma': stype})
     for sname, ps in [('rn4^2', odl.rn(4) ** 2), ('discr^2', odl.uniform_discr(0, 1, 5) ** 2), ('rn120^2', odl.rn(120) ** 2)]:
@@ -238,6 +241,23 @@ def run_own_parameter(ctx):
                 ctx.skip('in-place not implemented')
             except Exception as e:
                 ctx.violation(comp, cfg, 'raises-aliased:' + type(e).__name__, message=str(e)[:200], name=name)
+
+
+def arithmetic_wrappers(prox, sp, rng):
+    """Operator arithmetic the solvers and users build around a proximal P: reflection 2P - I, residual I - P, relaxation
+    (1-a) I + a P, averages of two scaled terms, negation, vector offsets, right scalings, powers."""
+    I = odl.IdentityOperator(sp)
+    v = rel(sp, rng)
+    out = []
+    for tag, mk in (('2P-I', lambda: 2 * prox - I), ('I-P', lambda: I - prox), ('0.3I+0.7P', lambda: 0.3 * I + 0.7 * prox),
+                    ('0.5P+0.5P', lambda: 0.5 * prox + 0.5 * prox), ('-P', lambda: -prox), ('P+v', lambda: prox + v), ('v*P', lambda: v * prox),
+                    ('P*0.5', lambda: prox * 0.5), ('P**2', lambda: prox ** 2), ('(2P-I)o(2P-I)', lambda: (2 * prox - I) * (2 * prox - I)),
+                    ('P-0.5*(P-I)', lambda: prox - 0.5 * (prox - I))):
+        try:
+            out.append((tag, mk()))
+        except Exception:
+            pass
+    return out
 
 
 def run_functab(ctx):
